@@ -547,15 +547,28 @@ func (e *Engine) deref(st *State, p *Val, pos token.Pos, t types.Type) *Val {
 	if p.Kind != KAddr {
 		loc += ".*"
 	}
+	viaField := p.Kind == KAddr && p.Field != nil && p.Src != nil
 	if v, ok := st.heap[loc]; ok {
-		e.emit(st, &Event{Kind: EvDeref, Pos: pos, Path: loc, Recv: p, Value: v})
+		if viaField {
+			e.emit(st, &Event{Kind: EvFieldRead, Pos: pos, Path: loc, Recv: p.Src, Field: p.Field, Value: v, Note: "via-pointer"})
+		} else {
+			e.emit(st, &Event{Kind: EvDeref, Pos: pos, Path: loc, Recv: p, Value: v})
+		}
 		return v
 	}
 	v := e.newVal(KField, t, pos)
 	v.Path = loc
 	v.Src = p
+	if viaField {
+		v.Src = p.Src
+		v.Field = p.Field
+	}
 	st.heap[loc] = v
-	e.emit(st, &Event{Kind: EvDeref, Pos: pos, Path: loc, Recv: p, Value: v})
+	if viaField {
+		e.emit(st, &Event{Kind: EvFieldRead, Pos: pos, Path: loc, Recv: p.Src, Field: p.Field, Value: v, Note: "via-pointer"})
+	} else {
+		e.emit(st, &Event{Kind: EvDeref, Pos: pos, Path: loc, Recv: p, Value: v})
+	}
 	return v
 }
 
